@@ -131,7 +131,8 @@ print(json.dumps(result, indent=1))
 if not confirmed:
     sys.exit(1)
 # --- run our checks against the change (scratch worktree through tools/mutant.py)
-dst = "/verif/seeded/%s-%s" % (prop, n)
+tag = sys.argv[sys.argv.index("--tag") + 1] + "-" if "--tag" in sys.argv else ""
+dst = "/verif/seeded/%s-%s%s" % (prop, tag, n)
 os.makedirs(dst, exist_ok=True)
 shutil.copy(out + "/patch.diff", dst + "/patch.diff")
 for d in glob.glob(out + "/demo.*"):
@@ -149,6 +150,6 @@ for c in checks:
             msg = lines[i + 1].strip()[:300]
             break
     meta["checks"][c] = {"verdict": first.split()[0], "line": first, "first_violation": msg,
-                         "command": "tools/mutant.py seeded/%s-%s/patch.diff %s  (= VERIF_REPO=<scratch worktree with the patch> ./check %s --tier quick)" % (prop, n, c, c)}
+                         "command": "tools/mutant.py %s/patch.diff %s  (= VERIF_REPO=<scratch worktree with the patch> ./check %s --tier quick)" % (dst, c, c)}
     print(first, msg[:200])
 json.dump(meta, open(dst + "/meta.json", "w"), indent=1)
